@@ -20,7 +20,7 @@ func init() {
 // readerUse is one use of the Parser.reader field.
 type readerUse struct {
 	Fn   *ssa.Function
-	Load *ssa.UnOp
+	Load ssa.Value
 	Call *ssa.Call // the call consuming the loaded reader (nil if other use)
 	Kind string    // "read", "fullread", "escape", "store"
 	Ins  ssa.Instruction
@@ -46,6 +46,84 @@ func parserReaderUses(p *Program) ([]readerUse, *types.Var) {
 	if readerField == nil {
 		return nil, nil
 	}
+	// classify every use of a value that is the parser's reader: a load of the field, or a
+	// parameter / captured variable of a repository function the reader was handed to
+	seenAlias := map[ssa.Value]bool{}
+	var classify func(fn *ssa.Function, x ssa.Value, depth int)
+	classify = func(fn *ssa.Function, x ssa.Value, depth int) {
+		if seenAlias[x] || x.Referrers() == nil {
+			return
+		}
+		seenAlias[x] = true
+		for _, u := range *x.Referrers() {
+			ru := readerUse{Fn: fn, Load: x, Ins: u, Kind: "escape"}
+			switch y := u.(type) {
+			case *ssa.DebugRef:
+				continue
+			case *ssa.ChangeInterface:
+				classify(fn, y, depth)
+				continue
+			case *ssa.MakeInterface:
+				classify(fn, y, depth)
+				continue
+			case *ssa.Store:
+				// spilled into a cell captured by a closure of this function: the loads of the
+				// cell (here and in the closures) are the reader again
+				if al, ok := y.Addr.(*ssa.Alloc); ok && y.Val == x && depth < 4 {
+					if al.Referrers() != nil {
+						for _, ar := range *al.Referrers() {
+							switch z := ar.(type) {
+							case *ssa.UnOp:
+								classify(fn, z, depth+1)
+							case *ssa.MakeClosure:
+								if cf, ok := z.Fn.(*ssa.Function); ok {
+									for i, b := range z.Bindings {
+										if b == ssa.Value(al) && i < len(cf.FreeVars) && cf.FreeVars[i].Referrers() != nil {
+											for _, fr := range *cf.FreeVars[i].Referrers() {
+												if ld, ok := fr.(*ssa.UnOp); ok {
+													classify(cf, ld, depth+1)
+												}
+											}
+										}
+									}
+								}
+							}
+						}
+					}
+					continue
+				}
+			case *ssa.Call:
+				cc := y.Common()
+				n := calleeName(cc)
+				ru.Call = y
+				switch {
+				case cc.IsInvoke() && cc.Value == x && (n == "(io.Reader).Read"):
+					ru.Kind = "read"
+				case !cc.IsInvoke() && n == "(*bufio.Reader).Read" && len(cc.Args) > 0 && cc.Args[0] == x:
+					ru.Kind = "read"
+				case nameIn(n, "io.ReadFull", "io.ReadAtLeast", "io.CopyN") && argIs(cc, x):
+					ru.Kind = "fullread"
+				case nameIn(n, "(*bufio.Reader).ReadByte", "(*bufio.Reader).Discard") && len(cc.Args) > 0 && cc.Args[0] == x:
+					ru.Kind = "bytewise"
+				default:
+					// handed to a function of the parser package: its parameter is the reader
+					if callee := staticCallee(cc); callee != nil && callee.Blocks != nil && fnPkgPath(callee) == pkgProto && depth < 4 {
+						handed := false
+						for i, a := range cc.Args {
+							if a == x && i < len(callee.Params) {
+								classify(callee, callee.Params[i], depth+1)
+								handed = true
+							}
+						}
+						if handed {
+							continue
+						}
+					}
+				}
+			}
+			out = append(out, ru)
+		}
+	}
 	for _, fn := range p.RepoFuncs(modPath) {
 		allInstrs(fn, func(ins ssa.Instruction) {
 			fa, ok := ins.(*ssa.FieldAddr)
@@ -64,28 +142,7 @@ func parserReaderUses(p *Program) ([]readerUse, *types.Var) {
 				case *ssa.Store:
 					out = append(out, readerUse{Fn: fn, Kind: "store", Ins: x})
 				case *ssa.UnOp:
-					if x.Referrers() == nil {
-						continue
-					}
-					for _, u := range *x.Referrers() {
-						ru := readerUse{Fn: fn, Load: x, Ins: u, Kind: "escape"}
-						if call, ok := u.(*ssa.Call); ok {
-							cc := call.Common()
-							n := calleeName(cc)
-							ru.Call = call
-							switch {
-							case cc.IsInvoke() && cc.Value == ssa.Value(x) && (n == "(io.Reader).Read"):
-								ru.Kind = "read"
-							case !cc.IsInvoke() && n == "(*bufio.Reader).Read" && len(cc.Args) > 0 && cc.Args[0] == ssa.Value(x):
-								ru.Kind = "read"
-							case nameIn(n, "io.ReadFull", "io.ReadAtLeast", "io.CopyN") && argIs(cc, x):
-								ru.Kind = "fullread"
-							case nameIn(n, "(*bufio.Reader).ReadByte", "(*bufio.Reader).Discard") && len(cc.Args) > 0 && cc.Args[0] == ssa.Value(x):
-								ru.Kind = "bytewise"
-							}
-						}
-						out = append(out, ru)
-					}
+					classify(fn, x, 0)
 				default:
 					out = append(out, readerUse{Fn: fn, Kind: "escape", Ins: r})
 				}
@@ -150,6 +207,7 @@ func runC02(c *Ctx) {
 	ruleLineReader(c, "R02.c")
 	ruleParserLifetime(c)
 	ruleNoRetryAfterParseError(c, "R02.e")
+	ruleParserStateBalanced(c, "R02.f")
 }
 
 // ruleReaderUses: R02.a and R02.b (also used by C01/C11 for the short-read clause).
@@ -538,7 +596,8 @@ func accumulateLoop(c *Ctx, fn *ssa.Function, call *ssa.Call, buf ssa.Value) (bo
 	}
 	complete := func(facts []Atom) bool {
 		for _, iq := range ineqsOf(facts) {
-			if sameBase(iq.x, size) && iq.x.off-size.off <= iq.y.off && !iq.y.isLen {
+			// base+ox <= y+oy gives size = base+so <= y exactly when ox-so >= oy
+			if sameBase(iq.x, size) && iq.x.off-size.off >= iq.y.off && !iq.y.isLen {
 				if iq.y.base == ssa.Value(total) || isSum(iq.y.base) {
 					return true
 				}
@@ -1315,5 +1374,82 @@ func bulkFrameSeparateDelimiter(c *Ctx, rid string, f *ssa.Function, mk *ssa.Mak
 		if eofTolerant(callee) != nil {
 			c.bad(rid, key+"/line-reader", c.P.pos(f.Pos()), "the bulk body is read through "+fnName(callee)+", which accepts a line cut short by end of stream")
 		}
+	}
+}
+
+// ruleParserStateBalanced: a field of the parser that is stepped while a value is parsed (a
+// nesting counter, a budget) outlives the value — the parser lives as long as the connection.
+// Whatever a parse function adds to such a field it must have taken back on every path to a
+// success return; otherwise the meaning of later, well-formed values depends on the history of
+// the stream (after enough null arrays every command is refused).
+func ruleParserStateBalanced(c *Ctx, rid string) {
+	c.rule(rid, "for every integer field of proto.Parser that a function of the parser steps by a constant (field += c / field -= c): on every path of that function to a success return the steps sum to zero")
+	n := 0
+	for _, f := range c.P.RepoFuncs(pkgProto) {
+		if fnPkgPath(f) != pkgProto || f.Blocks == nil {
+			continue
+		}
+		// fields stepped in f
+		type step struct {
+			field string
+			delta int8
+		}
+		steps := map[ssa.Instruction]step{}
+		fields := map[string]bool{}
+		allInstrs(f, func(ins ssa.Instruction) {
+			st, ok := ins.(*ssa.Store)
+			if !ok {
+				return
+			}
+			owner, fld, _, ok := fieldOf(st.Addr)
+			if !ok || owner != "proto.Parser" {
+				return
+			}
+			bo, ok := st.Val.(*ssa.BinOp)
+			if !ok || (bo.Op != token.ADD && bo.Op != token.SUB) {
+				return
+			}
+			cv, isC := constInt(bo.Y)
+			_, f2, _, ok2 := fieldOf(bo.X)
+			if !isC || !ok2 || f2 != fld || cv < -8 || cv > 8 {
+				return
+			}
+			if bo.Op == token.SUB {
+				cv = -cv
+			}
+			steps[ins] = step{fld, int8(cv)}
+			fields[fld] = true
+		})
+		for _, fld := range sortedKeys(fields) {
+			n++
+			key := fmt.Sprintf("%s/state:%s", fnName(f), fld)
+			type st struct{ D int8 }
+			a := &Auto[st]{Fn: f, Init: st{},
+				Step: func(s st, ins ssa.Instruction, fail func(string)) []st {
+					if sp, ok := steps[ins]; ok && sp.field == fld {
+						s.D += sp.delta
+						if s.D > 16 || s.D < -16 {
+							fail("the field is stepped in a loop without bound")
+						}
+					}
+					if r, ok := ins.(*ssa.Return); ok && s.D != 0 {
+						nr := len(r.Results)
+						if nr == 0 || !isErrorType(r.Results[nr-1].Type()) || isNilConst(retOperand(r, nr-1)) {
+							fail(fmt.Sprintf("a success return is reached with Parser.%s changed by %+d: the parser's state after this value depends on the values parsed before", fld, s.D))
+						}
+					}
+					return []st{s}
+				}}
+			res := a.Run()
+			if len(res.Errs) == 0 {
+				c.ok(rid, key, c.P.pos(f.Pos()), "every success path leaves the field as it found it")
+			}
+			for i, e := range res.Errs {
+				c.bad(rid, fmt.Sprintf("%s/path#%d", key, i), c.P.instrPos(e.Ins), e.Msg, e.witness(c.P)...)
+			}
+		}
+	}
+	if n == 0 {
+		c.ok(rid, "no-stepped-parser-state", "", "no function of the parser steps a field of the parser")
 	}
 }
